@@ -176,7 +176,7 @@ func TestVerif_C06LL(t *testing.T) {
 	// sweep: 1..N realistic entries (small offsets/sizes/slots as in a CAR file) and random ones
 	sweepN := 40
 	if vh.Thorough() {
-		sweepN = 400
+		sweepN = 250
 	}
 	for n := 1; n <= sweepN; n++ {
 		var vs [][4]uint64
@@ -319,9 +319,9 @@ func TestVerif_C06LL(t *testing.T) {
 			// Coq case: the file the implementation wrote, the zstd table of the record, expectation, observation
 			file, err := os.ReadFile(filepath.Join(dir, "linked-log"))
 			// records of the 16 KiB class are expensive for coqc to parse (about 0.1 ms per byte literal):
-			// quick sends one of them (total length 16385) to the Coq run, thorough eight; all go through the oracle
+			// quick sends one of them (total length 16385) to the Coq run, thorough six; all go through the oracle
 			limit := 3000
-			if len(file) > limit && big16k < 8 && (vh.Thorough() || (c.Category == "directed-16385" && big16k == 0)) {
+			if len(file) > limit && big16k < 6 && (vh.Thorough() || (c.Category == "directed-16385" && big16k == 0)) {
 				limit = 40000
 				big16k++
 			}
